@@ -120,7 +120,7 @@ def customs_for_model(customs):
 def approx(r):
     return r[1] * PI if r[0] == 'pi' else r[1]
 
-# fend's to_hashmap_and_scale drops the inexact flag of pi*pi products, so a value can be
+# (before fend commit 4dad8b2) to_hashmap_and_scale dropped the inexact flag of pi*pi products, so a value could be
 # flagged exact although it holds fend's own rational approximation of pi (about 20 digits);
 # the model uses another approximation.  Such pairs are counted here, not failed.
 DRIFT = {'pi_approximation_flagged_exact': 0}
